@@ -965,10 +965,7 @@ class Context:
                 # Execute the expression to get the function object
                 vm = VM(self.memory_limit, self.time_limit)
                 vm.globals = self._globals
-                if self._current_vm is not None:
-                    # Nested code runs against the same deadline as the outer eval
-                    vm.start_time = self._current_vm.start_time
-                result = vm.run(bytecode_module)
+                result = self._run_nested(vm, bytecode_module)
 
                 if isinstance(result, JSFunction):
                     return result
@@ -1109,10 +1106,7 @@ class Context:
 
                 vm = VM(ctx.memory_limit, ctx.time_limit)
                 vm.globals = ctx._globals
-                if ctx._current_vm is not None:
-                    # Nested code runs against the same deadline as the outer eval
-                    vm.start_time = ctx._current_vm.start_time
-                return vm.run(bytecode_module)
+                return ctx._run_nested(vm, bytecode_module)
             except (MemoryLimitError, TimeLimitError):
                 raise
             except Exception as e:
@@ -1121,6 +1115,20 @@ class Context:
                 raise JSError(f"EvalError: {str(e)}")
 
         return eval_fn
+
+    def _run_nested(self, vm: VM, compiled) -> JSValue:
+        """Run eval()/Function() code on its own VM, as part of the evaluation in progress:
+        same deadline, and one level deeper on the host stack."""
+        parent = self._current_vm
+        if parent is not None:
+            vm.start_time = parent.start_time
+            vm.native_depth_offset = parent.native_depth() + 1
+            vm.check_native_depth()
+        self._current_vm = vm
+        try:
+            return vm.run(compiled)
+        finally:
+            self._current_vm = parent
 
     def _global_isnan(self, *args) -> bool:
         """Global isNaN - converts argument to number first."""
